@@ -4,14 +4,12 @@ import sys
 from propbase import KERNEL, HARNESS
 
 
-def regen_color_tables(ctx):
-    """CUBE / GREYS / grey levels from src/encoder.rs and the library's sRGB->linear table (dumped through the harness)"""
-    return ctx["sh"]([sys.executable, os.path.join(ctx["root"], "translate", "enc_tables.py"), "encoder", "color"],
-                     cwd=ctx["root"], env=dict(ctx["env"], VERIF_REPO=ctx["repo"], VERIF_EXE=ctx["exe"] or ""))
+def _tables_path(ctx):
+    return os.path.join(ctx["build"], "c20_tables_%s.json" % ctx.get("pid", "C20"))
 
 
-def sweep(ctx):
-    """exact-integer sweep of ALL 2^24 colours x 3 roles x 3 depths in Rust (tool c20sweep, 8 threads), both tiers"""
+def _write_tables(ctx):
+    """the numbers of Gen/TabColor.v as JSON for the Rust side (tool c20sweep, harness/src/c20.rs); temp file + rename"""
     import json
     import re
     tab = open(os.path.join(ctx["coq"], "theories", "Gen", "TabColor.v")).read()
@@ -26,25 +24,58 @@ def sweep(ctx):
 
     tables = {"den": one("color_den"), "luma_den": one("luma_den"), "cube": lst("cube_z"), "greys": lst("greys_z"),
               "srgb": lst("srgb_z"), "gray_levels": lst("gray_levels_z")}
-    path = os.path.join(ctx["build"], "c20_tables.json")
-    with open(path, "w") as f:
+    path = _tables_path(ctx)
+    tmp = path + ".%d.tmp" % os.getpid()
+    with open(tmp, "w") as f:
         json.dump(tables, f)
+    os.replace(tmp, path)
+    return path
+
+
+def regen_color_tables(ctx):
+    """CUBE / GREYS / grey levels from src/encoder.rs and the library's sRGB->linear table (dumped through the harness)"""
+    rc, out = ctx["sh"]([sys.executable, os.path.join(ctx["root"], "translate", "enc_tables.py"), "encoder", "color"],
+                        cwd=ctx["root"], env=dict(ctx["env"], VERIF_REPO=ctx["repo"], VERIF_EXE=ctx["exe"] or ""))
+    if rc == 0:
+        # harness/src/c20.rs reads this file (cwd = framework root) to attach the Rust predicate's verdict to every case
+        path = _write_tables(ctx)
+        os.environ["VERIF_C20_TABLES"] = path
+        ctx["env"]["VERIF_C20_TABLES"] = path
+    return rc, out
+
+
+def sweep(ctx):
+    """exact-integer sweep of ALL 2^24 colours x 3 roles x 3 depths in Rust (tool c20sweep, 8 threads), both tiers"""
+    import json
+    path = _write_tables(ctx)
     stride = os.environ.get("VERIF_C20_STRIDE", "1")
     rc, out = ctx["sh"]([ctx["exe"], "tool", "c20sweep", path, stride], cwd=ctx["root"], timeout=3000)
     if rc != 0:
         return {"violations": [{"kind": "broken-correspondence", "what": "c20sweep tool failed: " + out[-500:], "case": {}}]}
-    res = json.loads(out.strip().split("\n")[-1])
+    try:
+        res = json.loads(out.strip().split("\n")[-1])
+    except ValueError:
+        return {"violations": [{"kind": "broken-correspondence", "what": "c20sweep output unreadable: " + out[-300:], "case": {}}]}
     vio = [{"kind": "failing-input",
-            "what": "exact-integer sweep: the entry chosen by the implementation is more than 1e-6 from the optimum (or the SGR bytes are not of the expected form)",
+            "what": "exact-integer sweep: the entry chosen by the implementation is more than 1e-6 from the optimum, the grey level is not nearest / not monotone, or the SGR bytes are not of the expected form",
             "case": {"depth": v.get("depth"), "kind": "sweep", "c": v.get("first", v.get("c")), "role": v.get("role"),
                      "role_colour": v.get("c"), "observed": v.get("observed")}} for v in res["violations"]]
+    if res["differs_from_exact_model"] > 0:
+        # the implementation (f32) and the exact model chose entries of different exact distance over the typed tables:
+        # reported as a model/implementation difference (the property itself is judged by the entries above)
+        vio.append({"kind": "broken-correspondence",
+                    "what": "c20sweep: %d (colour, role) pairs where the implementation's entry is not an exact optimum over the typed tables, i.e. differs from the exact model" % res["differs_from_exact_model"],
+                    "case": (res.get("model_diff_examples") or [{}])[0]})
     return {"violations": vio,
             "coverage": {"sweep_colours_per_depth_and_role": res["checked"], "sweep_roles": res["roles"], "sweep_stride": res["stride"],
                          "sweep_exhaustive": res["stride"] == 1,
                          "near_ties": res["near_ties"], "differs_from_exact_model": res["differs_from_exact_model"], "worst_excess": res["worst_excess"], "worst_at": res["worst_at"],
+                         "gray_lumas_with_two_levels": res["gray_lumas_with_two_levels"],
+                         "gray_inversions_within_tolerance": res["gray_inversions_within_tolerance"],
                          "tolerance": res["tolerance"]},
-            "notes": ["c20sweep: %d colours per depth and role (fg, bg, underline; stride %d); %d (colour, role) pairs differ from the exact optimum over the typed tables; against the palette entries placed by the library's own conversion %d are not exactly optimal, worst excess %.3g (tolerance 1e-6)"
-                      % (res["checked"], res["stride"], res["differs_from_exact_model"], res["near_ties"], res["worst_excess"])]}
+            "notes": ["c20sweep: %d colours per depth and role (fg, bg, underline; stride %d); %d (colour, role) pairs differ from the exact optimum over the typed tables; against the palette entries placed by the library's own conversion %d are not exactly optimal, worst excess %.3g (tolerance 1e-6); grey: no level decreases when luma increases by more than 1e-6, %d inversions within the tolerance, %d luma values (exact ties between two levels) carry two levels"
+                      % (res["checked"], res["stride"], res["differs_from_exact_model"], res["near_ties"], res["worst_excess"],
+                         res["gray_inversions_within_tolerance"], res["gray_lumas_with_two_levels"])]}
 
 
 PROP = {'gen': [],
@@ -55,24 +86,31 @@ PROP = {'gen': [],
  'props_module': 'Props.C20',
  'corr_check': 'SNT.Corr.C20Corr.c20_check (exact model Encoder/Color256.v vs the SGR bytes of surf_n_term::encoder::TTYEncoder for '
                'FaceModify{fg,bg,underline_color}; predicate: brute-force minimum over the 240 entries / 4 levels, tolerance 1e-6)',
- 'level_text': 'Coq theorems about an EXACT-RATIONAL model of the colour reduction in color_sgr_encode (the f32 evaluation of the '
-               'code is not modelled): for ALL channel values and ANY strictly increasing tables (6 cube levels, 24 greys) the selected '
-               'index is a non-system one whose entry minimises the Euclidean distance among all 240 entries (C20_algorithm); the '
-               'tables in the source, re-extracted on every run, are strictly increasing, in [0,1] and within eps = 1e-6 of the '
-               'library\'s own linearisation of the xterm levels (C20_tables); hence for every 8-bit colour the exact model picks a '
-               'closest entry over the typed tables (C20_closest_256_exact_model) and, measured at the true palette positions, a '
-               'closest entry up to 12 eps in squared distance (C20_closest_256_true_palette_upto_eps); the grey level is a nearest of '
-               'the four by luma and monotone in it; the bytes the encoder model emits carry exactly these indices / levels / '
-               'unchanged channels for the fg, bg and underline roles (C20_roles; an underline colour has no grey rendering: nothing is sent, a decision of the code recorded in the specification). FOR '
-               'THE CODE the property is established by running it: on every check ALL 2^24 colours x 3 roles x 3 depths go through '
-               'the real encoder (exact-integer comparison in Rust: entry within eps = 1e-6 in distance of the brute-force optimum '
-               'at the true palette positions, equal to the exact model\'s entry, nearest grey level, unchanged channels, no '
-               'panic), and ~8000 sampled colours are parsed by the independent SGR interpreter and compared in Coq.',
+ 'level_text': 'Coq theorems about an EXACT-RATIONAL model of the colour reduction in color_sgr_encode (names *_exact_model; the f32 '
+               'evaluation of the code is not modelled): for ALL channel values and ANY strictly increasing tables (6 cube levels, 24 '
+               'greys) the selected index is a non-system one whose entry minimises the Euclidean distance among all 240 entries '
+               '(C20_algorithm_exact_model); the tables in the source, re-extracted on every run, are strictly increasing, in [0,1] '
+               'and within eps = 1e-6 of the library\'s own linearisation of the xterm levels, the grey codes are 30/90/37/97 and the '
+               'grey levels the VGA luminances 0,1/3,2/3,1 within 0.01 (C20_tables); hence for every opaque 8-bit colour the exact '
+               'model picks a closest entry over the typed tables (C20_closest_256_exact_model) and, at the true palette positions, '
+               'a closest entry up to 12 eps = 1.2e-5 in SQUARED distance (C20_closest_256_true_palette_upto_eps_exact_model; in '
+               'distance this is only 3.5e-3 in the worst case, weaker than what is run); the grey level of the exact model is a '
+               'nearest of the four by luma and monotone in it; the bytes of the encoder model carry exactly these indices / levels '
+               '/ unchanged channels for the fg, bg and underline roles (C20_roles_exact_model). FOR THE CODE the property is '
+               'established by running it, not proved: on every check ALL 2^24 colours x 3 roles x 3 depths go through the real '
+               'encoder (Rust tool c20sweep, exact integers): entry within eps = 1e-6 in DISTANCE of the brute-force optimum at the '
+               'true palette positions (observed worst 2.62e-7 on 30 colours); nearest grey level within 1e-6 in luma; no grey level '
+               'decreases when luma increases by more than 1e-6 (observed: none; 3 luma values that are exact ties carry two '
+               'levels); unchanged channels; no panic; any colour where the code\'s entry is not an exact optimum over the typed '
+               'tables (= differs from the exact model) is reported as a model/implementation difference (observed: none). About '
+               '5000 sampled cases are parsed by the independent SGR interpreter and judged in Coq, where the verdict of the Rust '
+               'tool on the same bytes must equal the Coq verdict.',
  'level_note': 'Trusted: Coq kernel + vm_compute; translate/enc_tables.py (CUBE, GREYS, grey levels as exact decimals; sRGB->linear '
-               'table dumped through LinColor::from as exact values of the f32 results); slice::binary_search_by modelled by its '
-               'contract on sorted slices (partition point); luma weights 0.2126/0.7152/0.0722 of rasterize::Color::luma as read; '
-               'f32 evaluation is NOT modelled: optimality of the code itself is a run result (exhaustive, tolerance 1e-6 in '
-               'distance; observed worst excess 2.62e-7 on 30 colours), not a theorem. No axioms.',
+               'table dumped through LinColor::from as exact values of the f32 results); harness/src/tool_c20sweep.rs, an UNPROVED '
+               'second implementation of the predicate (f64 square roots, separable minimum) that carries the exhaustive part, '
+               'cross-checked against the Coq predicate on every sampled case; slice::binary_search_by modelled by its contract on '
+               'sorted slices; luma weights 0.2126/0.7152/0.0722 of rasterize::Color::luma as read; f32 evaluation is NOT modelled: '
+               'optimality / monotonicity of the code itself are run results with tolerance 1e-6, not theorems. No axioms.',
  'technique': 'Coq proof (sorted-table nearest search, per-channel separability, mean argument for greys) + regenerated tables + '
               'model/implementation correspondence by the property with a stated tolerance',
  'design_ref': 'DESIGN.md 6.20',
@@ -84,13 +122,21 @@ PROP = {'gen': [],
  'trusted_base': [KERNEL,
                   'translate/enc_tables.py + harness tool srgb: CUBE / GREYS / grey-depth levels and SGR codes re-extracted from '
                   'src/encoder.rs, the 256-entry sRGB->linear table re-dumped from the built crate, on every run (Gen/TabColor.v)',
+                  'harness/src/tool_c20sweep.rs: unproved Rust implementation of the property predicate used for the exhaustive sweep; its '
+                  'verdict is attached to every sampled case and must equal the verdict of Corr/C20Corr.v (c20_check)',
                   'hand-written exact model Encoder/Color256.v of nearest / the EightBit and Gray arms of color_sgr_encode, tied to the '
                   'code by the correspondence run (tolerance 1e-6) and by the exact-integer sweep (harness tool c20sweep)',
                   'specification: Euclidean distance in the library\'s linear-light space to the 240 non-system xterm palette '
                   'entries (cube levels 0,95,135,175,215,255; greys 8+10k); brute-force minimum (proved to be the minimum)',
                   HARNESS],
- 'assumptions': ['opaque colours (alpha 255): premultiplication by alpha = 1 is the identity',
-                 'the implementation evaluates in f32; agreement with the exact model is required up to 1e-6 in distance '
-                 '(observed: identical choice for all 2^24 colours with respect to the typed tables)',
-                 'grey depth: the four levels are the system colours black < bright black < white < bright white, standing for '
-                 'luminance 0, 1/3, 2/3, 1 (checked within 0.01 on the regenerated levels)']}
+ 'assumptions': ['opaque colours (alpha 255): premultiplication by alpha = 1 is the identity; the theorems carry rgba_ok c and ca c = 255 '
+                 'as scope hypotheses (the exact model itself ignores alpha)',
+                 'the implementation evaluates in f32; agreement with the exact model and optimality are required up to eps = 1e-6 in '
+                 'distance / luma (observed: identical choice for all 2^24 colours with respect to the typed tables)',
+                 'SPEC DECISION grey depth: the four available levels are the system colours 0 < 8 < 7 < 15 (SGR 30/90/37/97) standing '
+                 'for the VGA / Linux-console luminances 0, 1/3, 2/3, 1; the terminal\'s real palette is unknown to the library (in '
+                 'xterm\'s default palette, luma 0/.498/.898/1, the choice is ordered but not always the nearest, e.g. luma .55 -> 7)',
+                 'SPEC DECISION grey depth: an underline colour has no grey rendering; the code sends nothing for it and predicate and '
+                 'sweep require exactly that -- a change of the crate that sends one would be reported and needs this decision revisited',
+                 'monotonicity for the code is judged on exact luma with tolerance 1e-6: colours of exactly equal luma at a tie between '
+                 'two levels may get either level (corpus/C20/002-gray-ties.jsonl)']}
